@@ -25,7 +25,7 @@ ENTRIES = collections.OrderedDict()
 
 class Entry(object):
     def __init__(self, name, n, build, flags="", ref=None, norm=None, empty=None, ahead=2, presort=None,
-                 prepare=None, hdr=None):
+                 prepare=None, hdr=None, cells=None):
         self.name = name
         self.n = n
         self.build = build
@@ -37,6 +37,7 @@ class Entry(object):
         self.presort = presort  # key by which inputs must be sorted for presorted=True
         self.prepare = prepare
         self.hdr = hdr
+        self.cells = cells or {}  # column -> cell kind understood by catgen ('pair', 'dict')
 
     def has(self, f):
         return f in self.flags
@@ -235,6 +236,11 @@ E("unpackdict", 1, lambda S: etl.unpackdict(etl.convert(S[0], "v", lambda v: {"p
   empty=[("k", "j", "s")])
 E("unpackdict_keys", 1, lambda S: etl.unpackdict(etl.convert(S[0], "v", lambda v: {"p": v}), "v", keys=["p", "q"], samplesize=2),
   "stream rect", ahead=4)
+E("unpack_direct", 1, lambda S: etl.unpack(S[0], "v", ["p", "q"]), "stream", cells={"v": "pair"})
+E("unpackdict_direct", 1, lambda S: etl.unpackdict(S[0], "v", keys=["p", "q"]), "stream rect", cells={"v": "dict"})
+E("convert_direct_listcell", 1, lambda S: etl.convert(S[0], "v", lambda v: v + [0] if isinstance(v, list) else v), "stream",
+  cells={"v": "pair"})
+E("sort_listcells", 1, lambda S, **kw: etl.sort(S[0], "v", **kw), "sorted", cells={"v": "pair"})
 # ---- validation -----------------------------------------------------------------------------
 E("validate", 1, lambda S: etl.validate(S[0], constraints=[dict(name="vint", field="v", test=int)], header=H), "stream")
 # ---- util views -----------------------------------------------------------------------------
